@@ -391,7 +391,16 @@ class Sym:
         out = []
         for g in reversed(self.cfg.guards(nid)):
             if g.kind == "T" and isinstance(g.ast, (ast.For, ast.AsyncFor)):
-                out.append(self.of(g.ast.iter, g.of))
+                it = self.of(g.ast.iter, g.of)
+                # the collection ranged over, however it is walked: range(len(X)), enumerate(X), list(X), iter(X)
+                while True:
+                    if is_call_of(it) and it[1] in (("glob", "list"), ("glob", "tuple"), ("glob", "iter"), ("glob", "enumerate")) and len(it[2]) >= 1 and not it[3]:
+                        it = it[2][0]
+                    elif is_call_of(it, ("glob", "range")) and len(it[2]) == 1 and is_call_of(it[2][0], ("glob", "len")) and len(it[2][0][2]) == 1:
+                        it = it[2][0][2][0]
+                    else:
+                        break
+                out.append(it)
         return tuple(out)
 
     # ------------------------------------------------------------------ internals
